@@ -93,7 +93,15 @@ func stubIfByIndex(index int) (*net.Interface, error) {
 	return &net.Interface{Index: index, Name: "eth-verif", HardwareAddr: net.HardwareAddr{2, 0, 0, 0, 0, 1}}, nil
 }
 
+// ethFails: the link-level send fails (raw socket refused, interface without a
+// 6-byte hardware address, chaddr of another length)
+var ethFails bool
+
 func stubSendEthernet(iface net.Interface, resp *dhcpv4.DHCPv4) error {
 	sent = append(sent, sendEvent{l2: true, iface: iface, resp4: resp})
+	if vnd.Pick("ethfails", 0, 1) == 1 { // decided only on paths that get here
+		ethFails = true
+		return errors.New("sendEthernet: operation not permitted")
+	}
 	return nil
 }
